@@ -302,3 +302,22 @@ def replay(ctx, data):
         return 0
     print('nothing to replay for', data.get('kind'), '- see broken_obligations / broken_correspondence in the file')
     return 0
+
+
+# ---- part (c): the batteries through a replicated cluster with compaction, snapshot catch-up and restarts ----
+_corr_direct = correspondence
+_replay_direct = replay
+
+
+def correspondence(ctx):
+    _corr_direct(ctx)
+    from props import cluster_ext
+    cluster_ext.run(ctx, want_lock=False)
+    ctx.partial[:] = [p for p in ctx.partial if 'cluster' not in p.lower()]
+
+
+def replay(ctx, data):
+    if data.get('kind') == 'cluster_batteries':
+        from props import cluster_ext
+        return cluster_ext.replay(ctx, data)
+    return _replay_direct(ctx, data)
